@@ -4,7 +4,8 @@
    the ACTIONS of MazeSystem.
    record: [id, events = sequence of [op, c, fl (sequence of filter letters), i, f, p, how ("warm"|"cold"|"mismatch"|"-"),
                                        res, key (observed identity of the dataset handed out: <<base name, provenance letters>>),
-                                       dig (per-maze digests), ref (reference digests of the model's denotation of this handle)]]
+                                       dig (per-maze digests), ref (reference digests of the model's denotation of this handle),
+                                       j, d, k (collection operations), mkeys (observed member identities of a collection; dig = its flattened mazes)]]
    Layer P (C11): a request hands out exactly the dataset of the requested configuration.
    Layer M: cache warm/cold as the model says; filter / save / read results are what the model says. *)
 EXTENDS MazeSystem, Json, IOUtils, SequencesExt
@@ -19,6 +20,9 @@ Act == CASE Ev.op = "request" -> Request(Ev.c, Ev.fl)
          [] Ev.op = "filter" -> Filter(Ev.i, Ev.f)
          [] Ev.op = "save" -> Save(Ev.i, Ev.p)
          [] Ev.op = "read" -> Read(Ev.p)
+         [] Ev.op = "collect" -> Collect(Ev.i, Ev.j)
+         [] Ev.op = "collgen" -> CollGenerate(Ev.c, Ev.d)
+         [] Ev.op = "collrt" -> CollRoundTrip(Ev.k)
 NewHandle == Len(hs') = Len(hs) + 1
 ModelHow == hist'[Len(hist')].how
 Clauses ==
@@ -27,11 +31,15 @@ Clauses ==
     \cup (IF Ev.res = "ok" /\ Ev.key # <<Ev.c, Ev.fl>> THEN {"request_handed_out_a_dataset_of_another_configuration"} ELSE {})
     \cup (IF Ev.res # "ok" /\ ModelHow # "mismatch" THEN {"request_raised"} ELSE {})
     \cup (IF Ev.res = "ok" /\ Ev.how # ModelHow THEN {"M:cache_hit_or_miss_differs_from_model"} ELSE {})
+  ELSE IF Ev.op \in {"collect", "collgen", "collrt"} THEN
+       (IF Ev.res # "ok" THEN {"M:collection_operation_raised"} ELSE {})
+    \cup (IF Ev.res = "ok" /\ (Ev.mkeys # [m \in 1..Len(colls'[Len(colls')]) |-> colls'[Len(colls')][m].cfg] \/ Ev.dig # Ev.ref)
+            THEN {"M:collection_is_not_the_models_collection"} ELSE {})
   ELSE (IF Ev.res # "ok" THEN {"M:operation_raised"} ELSE {})
     \cup (IF Ev.res = "ok" /\ NewHandle /\ (Ev.key # hs'[Len(hs')].cfg \/ Ev.dig # Ev.ref) THEN {"M:result_is_not_the_models_dataset"} ELSE {})
 TStep == /\ tid <= Len(Log) /\ l <= Len(T.events) /\ ENABLED Act
          /\ Act /\ bad' = Verdict(Clauses) /\ l' = l + 1 /\ UNCHANGED tid
-Reset == /\ hs' = <<>> /\ cache' = [k \in Keys |-> Absent] /\ files' = [p \in Paths |-> Absent] /\ ops' = 0 /\ hist' = <<>>
+Reset == /\ hs' = <<>> /\ colls' = <<>> /\ cache' = [k \in Keys |-> Absent] /\ files' = [p \in Paths |-> Absent] /\ ops' = 0 /\ hist' = <<>>
 TSkip == /\ tid <= Len(Log) /\ l <= Len(T.events) /\ ~ENABLED Act
          /\ bad' = Verdict({"M:operation_not_enabled_in_model"}) /\ tid' = tid + 1 /\ l' = 1 /\ Reset
 TNextTrace == /\ tid <= Len(Log) /\ l = Len(T.events) + 1 /\ tid' = tid + 1 /\ l' = 1 /\ UNCHANGED bad /\ Reset
